@@ -277,6 +277,7 @@ type snapshot struct {
 	dispute, bridge, tbr, feecoll             *big.Int
 	bonded, bondedLedger, notBonded, nbLedger *big.Int
 	sharesPos, tokensNonneg, creditsNonneg    bool
+	recordsSum                                bool
 }
 
 func (w *World) modBal(name string) *big.Int {
@@ -344,14 +345,26 @@ func (w *World) snap() snapshot {
 			sn.sharesPos = false
 		}
 	}
+	// the per-backer records of stake taken for dispute fees sum to their totals
+	sn.recordsSum = true
+	_ = s.Reporterkeeper.FeePaidFromStake.Walk(w.ctx, nil, func(_ []byte, d reportertypes.DelegationsAmounts) (bool, error) {
+		sum := math.ZeroInt()
+		for _, o := range d.TokenOrigins {
+			sum = sum.Add(o.Amount)
+		}
+		if !sum.Equal(d.Total) {
+			sn.recordsSum = false
+		}
+		return false, nil
+	})
 	return sn
 }
 
 func (sn snapshot) coq() string {
-	return fmt.Sprintf("(Snap %s %s %s %s %s %s %s %d %s %s %s %s %s %s %s %s %s %s %s)",
+	return fmt.Sprintf("(Snap %s %s %s %s %s %s %s %d %s %s %s %s %s %s %s %s %s %s %s %s)",
 		cz(sn.supply), cz(sn.balsum), cz(sn.oracle), cz(sn.oracleOwed), cz(sn.tips), cz(sn.tipsFloor), cz(sn.tipsScaled), sn.tipsEntries,
 		cz(sn.dispute), cz(sn.bridge), cz(sn.tbr), cz(sn.feecoll), cz(sn.bonded), cz(sn.bondedLedger), cz(sn.notBonded), cz(sn.nbLedger),
-		cbool(sn.sharesPos), cbool(sn.tokensNonneg), cbool(sn.creditsNonneg))
+		cbool(sn.sharesPos), cbool(sn.tokensNonneg), cbool(sn.creditsNonneg), cbool(sn.recordsSum))
 }
 
 // holdings of one account (C19): liquid, delegated (whole loya), tip credit (10^-18), selected reporter id
